@@ -105,6 +105,10 @@ def parked_schedules(ctx, r, big=0, torn=False, skew=False):
                 if rb.get("timeout"):
                     ctx.violation("C01 claim blocks waiting for the lock", "B did not return within 10 s while A held the lock", {"trace": trace + [step]}); return
                 if holding and not (rb["exit"] == 1 and "lock busy" in rb["stderr"]):
+                    pk._reached()          # read A's trace once more: if it shows the unlock by now, A was not where we thought (see sched.Parked)
+                    if not sched.holds_lock(pk.steps_at_park):
+                        ctx.count(1, key=("skipped: parked outside the locked region",)); pk.resume(); pk = None
+                        continue
                     ctx.violation("C01 second claimer not refused while the lock is held", "A parked after %s holding the lock; B: exit %s %s %s" % (at, rb["exit"], rb["stdout"].strip()[:80], rb["stderr"].strip()[:80]),
                                   {"trace": trace + [step]}); return
                 ra = pk.resume(); pk = None
